@@ -9,6 +9,7 @@ import (
 	"sort"
 	"strings"
 
+	"github.com/pdok/texel/intgeom"
 	"github.com/pdok/texel/pointindex"
 	"github.com/pdok/texel/snap"
 	"github.com/pdok/texel/tms20"
@@ -40,6 +41,12 @@ func maxID(t tms20.TileMatrixSet) int {
 
 // fixRoundTrip nudges an integer ordinate until its float image reads back as itself.
 func fixRoundTrip(o int64) (int64, bool) {
+	if o2 := intgeom.FromGeomOrd(intgeom.ToGeomOrd(o)); o2 != o {
+		// what the implementation reads for the float image of o; representable by construction or by a neighbouring float
+		if _, ok := toFloat(o2); ok {
+			return o2, true
+		}
+	}
 	for d := int64(0); d < 4; d++ {
 		for _, c := range []int64{o + d, o - d} {
 			if _, ok := toFloat(c); ok {
